@@ -364,6 +364,37 @@ func c04Program(t c04Tmpl, mask int, ctx string) *Prog {
 	return &Prog{Stmts: st}
 }
 
+// c04TwinProgram fills every non-slice slot of t with one and the same call expression.
+func c04TwinProgram(t c04Tmpl, ctx string) *Prog {
+	tw := t
+	tw.plain = make([]Expr, len(t.plain))
+	for i, ty := range t.types {
+		switch ty {
+		case "int":
+			tw.plain[i] = Call{Fn: "nx"}
+		case "bool":
+			tw.plain[i] = Call{Fn: "nb"}
+		case "string":
+			tw.plain[i] = Call{Fn: "ns"}
+		default:
+			tw.plain[i] = t.plain[i]
+		}
+	}
+	p := c04Program(tw, 0, ctx)
+	bump := func(name string, rt Type, val Expr) Stmt {
+		return FuncDef{Name: name, Rets: []Type{rt}, Body: []Stmt{IncDec{Name: "n", Inc: true}, Print{Args: []Expr{StrLit{V: name}, Var{"n"}}}, Return{Vals: []Expr{val}}}}
+	}
+	twinFns := []Stmt{
+		bump("nx", TInt, Var{"n"}),
+		bump("nb", TBool, Binary{Op: "==", L: Binary{Op: "%", L: Var{"n"}, R: lit(2)}, R: lit(1)}),
+		bump("ns", TStr, Binary{Op: "+", L: StrLit{V: "s"}, R: Itoa{X: Var{"n"}}}),
+	}
+	// after the definition of n (first statement of the prelude)
+	st := append([]Stmt{p.Stmts[0]}, twinFns...)
+	st = append(st, p.Stmts[1:]...)
+	return &Prog{Stmts: st}
+}
+
 func popcount(x int) int {
 	n := 0
 	for ; x != 0; x &= x - 1 {
@@ -402,6 +433,26 @@ func C04() int {
 			}
 		}
 	}
+	// twins: every operand slot of a statement holds the SAME effectful expression text (nx() for int slots, nb()
+	// for bool, ns() for string: each call bumps n and returns a value derived from it), so structurally equal
+	// operands occur several times in one statement; each occurrence is its own evaluation
+	twins := 0
+	for _, t := range tm {
+		nTwin := 0
+		for _, ty := range t.types {
+			if ty != "slice" {
+				nTwin++
+			}
+		}
+		if nTwin < 2 {
+			continue
+		}
+		for _, ctx := range []string{"top", "function", "loop"} {
+			all = append(all, item{fmt.Sprintf("stmt=%s twins ctx=%s", t.name, ctx), c04TwinProgram(t, ctx)})
+			twins++
+		}
+	}
+	r.Set("twin_operand_programs", twins)
 	// every ordered pair of statement kinds in sequence, all operands traced (helper/register reuse across statements)
 	for _, t1 := range tm {
 		for _, t2 := range tm {
